@@ -193,14 +193,30 @@ func (s *Set[T]) unsafeIterator() *fun.Iterator[T] {
 // order. If the Set is synchronize, then the Producer always holds
 // the Set's lock when called.
 func (s *Set[T]) Producer() (out fun.Producer[T]) {
-	defer s.with(s.lock())
-	defer func() { mu := s.mtx.Get(); ft.WhenDo(mu != nil, func() fun.Producer[T] { return out.WithLock(mu) }) }()
+	mu := s.lock()
+	defer s.with(mu)
 
-	if s.list != nil {
-		return s.list.Producer()
+	switch {
+	case s.list != nil:
+		out = s.list.Producer()
+	case mu == nil:
+		return s.hash.ProducerKeys()
+	default:
+		// the map producer iterates in a goroutine of its own,
+		// which cannot hold the lock: iterate over a copy of
+		// the keys taken while the lock is held.
+		keys := make([]T, 0, len(s.hash))
+		for k := range s.hash {
+			keys = append(keys, k)
+		}
+		out = fun.SliceIterator(keys).Producer()
 	}
 
-	return s.hash.ProducerKeys()
+	if mu != nil {
+		out = out.WithLock(mu)
+	}
+
+	return out
 }
 
 // Equal tests two sets, returning true if the items in the sets have
@@ -209,14 +225,17 @@ func (s *Set[T]) Producer() (out fun.Producer[T]) {
 func (s *Set[T]) Equal(other *Set[T]) bool {
 	defer s.with(s.lock())
 
-	if len(s.hash) != other.Len() || s.isOrdered() != other.isOrdered() {
+	// read the other set's order flag under the other set's lock.
+	otherOrdered := func() bool { defer other.with(other.lock()); return other.isOrdered() }()
+
+	if len(s.hash) != other.Len() || s.isOrdered() != otherOrdered {
 		return false
 	}
 
 	ctx := context.Background()
-	iter := s.unsafeIterator()
 
 	if s.isOrdered() {
+		iter := s.unsafeIterator()
 		otherIter := other.Iterator()
 		for iter.Next(ctx) && otherIter.Next(ctx) {
 			if iter.Value() != otherIter.Value() {
@@ -227,13 +246,16 @@ func (s *Set[T]) Equal(other *Set[T]) bool {
 		return iter.Close() == nil && otherIter.Close() == nil
 	}
 
-	for iter.Next(ctx) {
-		if !other.Check(iter.Value()) {
+	// range over the map directly: the map's iterator advances in a
+	// goroutine of its own, which would go on reading the map after
+	// an early return has released the lock.
+	for item := range s.hash {
+		if !other.Check(item) {
 			return false
 		}
 	}
 
-	return iter.Close() == nil
+	return true
 }
 
 // MarshalJSON generates a JSON array of the items in the set.
